@@ -22,7 +22,7 @@ from spec import wgs84
 
 MANIFEST = dict(
     category="proof",
-    technique="structure proof: the cut loop of the real run_feedforward_filter executed with the Kalman payload as tracked tokens (the sequence of kalman.correct / process-matrix / propagation operations of every path is compared with the Kalman recursion of the joint model), initial covariance and result assembly executed on sympy reals, joint model blocks from C08; the scheduling obligations the model depends on (increments of exactly the step's interval selected by label, z and H at the measurement's own time) re-established from the cut loop; equality with the one-shot Gauss-Markov solution rests on the textbook theorem (assumed) and is observed by a bounded batch-solve stand-in",
+    technique="structure proof: the cut loop of the real run_feedforward_filter executed with the Kalman payload as tracked tokens (the sequence of kalman.correct / process-matrix / propagation operations of every path is compared with the Kalman recursion of the joint model), initial covariance and result assembly executed on sympy reals, joint model blocks from C08; the scheduling obligations the model depends on (increments of exactly the step's interval selected by label, z and H at the measurement's own time) re-established from the cut loop; equality with the one-shot Gauss-Markov solution rests on the textbook theorem (assumed) and is observed by a bounded batch-solve stand-in; Bounded stand-ins shared by all properties (labelled bounded, never counted as proved): the argument-form battery of the modules under contract (batches of 1 and 1200 rows, integer-typed values, labels / columns in other orders, extra labels); where the frame analysis finds state that outlives a call (a cache, a memo) the frame obligation becomes a dynamic purity contract against pristine process states; names the proofs replace by scipy contracts are checked to be bound to the library's functions (else a differential test).",
     text="What contracts decide here is that the code IS the Kalman recursion of exactly the model the property names, for all schedules, sizes and enable masks: P0 = blockdiag(T_io diag(sigma^2) T_io^T, P_gyro, P_accel) with the sigmas on the documented output states; the joint F, G, q are the specified blocks (C08.joint.*, re-run here); on every path of the real loop body each available measurement is corrected exactly once, in sensor order, at the pva interpolated between the two neighbouring rows with the weight of its own time, with H_full = [H 0 0] placed in the INS block, the state and covariance handed from one correction to the next, then x <- Phi x, P <- Phi P Phi^T + Qd with (Phi, Qd) of the joint model at the mid-point nominal pva over exactly (time, next_time], and nothing else writes x or P; the recorded rows are the a-posteriori x, P; the result tables are error = T_oi x_ins, compensated trajectory = trajectory minus the error (metres through the nominal radii), sd = sqrt(diag(T P T^T)), sensor tables = the x blocks under the models' state names. That this recursion equals the non-recursive Gauss-Markov solution is Maybeck vol. 1 ch. 5 (assumed theorem) together with C07 and C08; the equality itself is only OBSERVED by the bounded stand-in (independent dense conditional-mean solve on short runs).",
     note="A1, A6; theorem KF recursion = conditional mean / BLUE of the linear-Gaussian model (assumed); C07 (correct is the Bayes update), C08 (process matrices), C04/C05/C06/C14 (the model's pieces) are prerequisites proved in their own checks; stand-in bound: <= 40 grid points, sampled enable masks, sigmas over 4 decades.",
 )
